@@ -10,7 +10,7 @@ import (
 
 func init() {
 	register("C02", propMeta{
-		Explanation: "E-OWN + E-LOCK + E-PROV + E-GUARD on the broker's rendezvous. O-1 channel privacy: every store to Snowflake.{offerChannel,answerChannel,id} and ProxyPoll.{offerChannel,id} targets a not-yet-published object of the storing function and channel fields only ever receive a fresh MakeChan. O-2 unique holder: the heaps, the id map and Snowflake.index are touched only under snowflakeLock (must-lockset, heap callbacks included) and the heap slices only inside the heap.Interface methods. O-3 same match end to end: in ClientOffers the snowflake returned by matchSnowflake is the base of the channel the offer is sent on, of the channel the answer is received from and of the id deregistered; the answer returned is the value received; the offer carries the request's SDP and the validated fingerprint. In Broker the per-poll goroutine forwards from the snowflake registered for *that* poll (request passed as a parameter, snowflake a per-iteration value built from request.id). ProxyAnswers sends the decoded answer on the answerChannel of the map entry looked up with the decoded id. ProxyPolls returns the offer received for the decoded session id and derives the relay URL from that offer's fingerprint. O-4: registration key = own id. O-5: one matching path for POST/legacy/AMP. O-6: matching is reachable only through the err == nil edges of hex decoding, fingerprint construction and bridge lookup. With private channels and a unique holder the only values that can travel between a client handler and a proxy handler are that client's offer and that proxy's answer; each obligation is also necessary (break it and some history cross-wires). Added after the second seeding round: O-6c every JSON record decoded inside a loop goes into a record created (or wholly overwritten) in that iteration; O-7/C14 the request body is read only through MaxBytesReader (C14's obligation, evaluated here for the broker handlers). Added after the third seeding round: O-9 (no package-level scratch state on the match path) covers method calls on package-level objects, for example a shared response buffer whose bytes are handed to the poll; O-6b GetBridgeInfo succeeds only with the entry looked up for its own parameter. Added after the fourth seeding round: O-1b AddSnowflake returns only the Snowflake it allocated in this call; O-3 a request reaches matchSnowflake at most once per execution (no second chance with the same offer); O-10/C04 the deregistration obligations of C04 for the poll goroutine's timeout branch.",
+		Explanation: "E-OWN + E-LOCK + E-PROV + E-GUARD on the broker's rendezvous. O-1 channel privacy: every store to Snowflake.{offerChannel,answerChannel,id} and ProxyPoll.{offerChannel,id} targets a not-yet-published object of the storing function and channel fields only ever receive a fresh MakeChan. O-2 unique holder: the heaps, the id map and Snowflake.index are touched only under snowflakeLock (must-lockset, heap callbacks included) and the heap slices only inside the heap.Interface methods. O-3 same match end to end: in ClientOffers the snowflake returned by matchSnowflake is the base of the channel the offer is sent on, of the channel the answer is received from and of the id deregistered; the answer returned is the value received; the offer carries the request's SDP and the validated fingerprint. In Broker the per-poll goroutine forwards from the snowflake registered for *that* poll (request passed as a parameter, snowflake a per-iteration value built from request.id). ProxyAnswers sends the decoded answer on the answerChannel of the map entry looked up with the decoded id. ProxyPolls returns the offer received for the decoded session id and derives the relay URL from that offer's fingerprint. O-4: registration key = own id. O-5: one matching path for POST/legacy/AMP. O-6: matching is reachable only through the err == nil edges of hex decoding, fingerprint construction and bridge lookup. With private channels and a unique holder the only values that can travel between a client handler and a proxy handler are that client's offer and that proxy's answer; each obligation is also necessary (break it and some history cross-wires). Added after the second seeding round: O-6c every JSON record decoded inside a loop goes into a record created (or wholly overwritten) in that iteration; O-7/C14 the request body is read only through MaxBytesReader (C14's obligation, evaluated here for the broker handlers). Added after the third seeding round: O-9 (no package-level scratch state on the match path) covers method calls on package-level objects, for example a shared response buffer whose bytes are handed to the poll; O-6b GetBridgeInfo succeeds only with the entry looked up for its own parameter. Added after the fourth seeding round: O-1b AddSnowflake returns only the Snowflake it allocated in this call; O-3 a request reaches matchSnowflake at most once per execution (no second chance with the same offer); O-10/C04 the deregistration obligations of C04 for the poll goroutine's timeout branch. Added after the fifth seeding round: O-3e ClientPollResponse.Answer is the empty string or the value received from the matched snowflake's answerChannel; O-3d every alternative of the fingerprint whose relay URL is looked up is the received offer's; O-6b BrokerContext.GetBridgeInfo succeeds only if the bridge list's lookup did; one request reaches ClientOffers once (several call sites on alternative paths are allowed).",
 		NotDecided:  "byte-for-byte fidelity through JSON (C12), uniqueness of proxy-chosen session ids (outside the quantifier), liveness (C04), container/heap correctness.",
 		Assumptions: []string{"Go channel semantics", "lock identity is (type, field)", "container/heap calls only the heap.Interface methods of the value it is given"},
 	}, runC02)
@@ -61,6 +61,7 @@ func runC02(c *Ctx) {
 	c.checkBrokerMatchingRows()
 	// responses and lookups are built from per-request memory: nothing on the match path hands out, or
 	// fills, a package-level buffer or cache (one client's response bytes overwritten by another's)
+	c.checkAnswerProvenance()
 	c.checkNoSharedState("O-9 no package-level scratch state on the match path", "broker", broker)
 	c.checkNoSharedState("O-9 no package-level scratch state on the match path", "common/messages", p.FnsIn("common/messages"))
 	// the timeout branch of the poll goroutine hands a claimed snowflake's offer on and deregisters an unclaimed
@@ -148,13 +149,21 @@ func runC02(c *Ctx) {
 				c.undecided("O-5 one matching path", "broker."+h, "-", "anchor does not resolve")
 				continue
 			}
-			n := 0
-			for _, ci := range callsIn(fn) {
-				if staticCallee(ci) == co {
-					n++
+			var sites []ssa.CallInstruction
+			for _, d := range deepCalls(fn, 2, funcFullName(co)) {
+				if ci, ok := d.Top.(ssa.CallInstruction); ok {
+					sites = append(sites, ci)
 				}
 			}
-			c.check(n == 1, "O-5 one matching path", "broker."+h+" reaches matching through (*IPC).ClientOffers", p.Pos(fn.Pos()), "one call", fmt.Sprintf("%d calls of ClientOffers", n))
+			twice := false
+			for _, a := range sites {
+				for _, b := range sites {
+					if canFollow(a, b) {
+						twice = true
+					}
+				}
+			}
+			c.check(len(sites) >= 1 && !twice, "O-5 one matching path", "broker."+h+" reaches matching through (*IPC).ClientOffers", p.Pos(fn.Pos()), "one call per request", fmt.Sprintf("%d calls of ClientOffers (twice on one path: %v)", len(sites), twice))
 		}
 	}
 }
@@ -556,10 +565,25 @@ func (c *Ctx) checkProxyPollsProvenance() {
 		okChain := false
 		if gbi != nil {
 			arg := gbi.Call.Args[len(gbi.Call.Args)-1]
-			okChain = flows(arg, func(w ssa.Value) bool {
-				cc, i, ok := callResult(w)
-				return ok && i == 0 && isCallTo(cc, "common/bridgefingerprint.FingerprintFromBytes") && offerField(cc.Call.Args[0], "fingerprint")
-			}) && flows(args[3], func(w ssa.Value) bool { cc, _, ok := callResult(w); return ok && cc == gbi })
+			// every value the looked-up fingerprint can take (all merged alternatives) is the received offer's
+			okAll := true
+			var walk func(v ssa.Value, d int)
+			walk = func(v ssa.Value, d int) {
+				if ph, isPhi := v.(*ssa.Phi); isPhi && d < 6 {
+					for _, e := range ph.Edges {
+						walk(e, d+1)
+					}
+					return
+				}
+				if !flows(v, func(w ssa.Value) bool {
+					cc, i, ok := callResult(w)
+					return ok && i == 0 && isCallTo(cc, "common/bridgefingerprint.FingerprintFromBytes") && offerField(cc.Call.Args[0], "fingerprint")
+				}) {
+					okAll = false
+				}
+			}
+			walk(arg, 0)
+			okChain = okAll && flows(args[3], func(w ssa.Value) bool { cc, _, ok := callResult(w); return ok && cc == gbi })
 		}
 		c.check(okRelay && okChain, rule, "relay URL = bridge info of the received offer's fingerprint", p.instrPos(ci), "GetBridgeInfo(FingerprintFromBytes(offer.fingerprint)).WebSocketAddress", "the relay URL does not derive from the bridge named by the received offer's fingerprint")
 	}
@@ -887,4 +911,69 @@ func (c *Ctx) checkBrokerMatchingRows() {
 		}
 	}
 	c.checkGuardRows("O-2 unique holder", rows, c.P.FnsIn("broker"))
+}
+
+// checkAnswerProvenance: (a) the Answer field of every ClientPollResponse built
+// in the broker is the empty string or the value received from the matched
+// snowflake's answerChannel - never an error text or anything else (a client
+// must not take for an answer something no proxy sent); (b) the context's
+// GetBridgeInfo wrapper succeeds only when the bridge list's lookup did.
+func (c *Ctx) checkAnswerProvenance() {
+	p := c.P
+	rule := "O-3e an answer is a proxy's answer"
+	f := p.Field("common/messages", "ClientPollResponse", "Answer")
+	if f == nil {
+		c.undecided(rule, "ClientPollResponse.Answer", "-", "field does not resolve")
+	} else {
+		n, bad := 0, 0
+		for _, st := range storesToField(p.FnsIn("broker"), f) {
+			n++
+			if sv, ok := constString(st.Val); ok && sv == "" {
+				continue
+			}
+			fromChan := flows(st.Val, func(w ssa.Value) bool {
+				for _, op := range chanOpsIn(p, st.Parent()) {
+					if op.Dir == chRecv && op.Class == "Snowflake.answerChannel" && op.Val != nil && (w == op.Val || strip(w) == strip(op.Val)) {
+						return true
+					}
+				}
+				return false
+			})
+			if !fromChan {
+				bad++
+				c.viol(rule, p.FnName(st.Parent())+" fills ClientPollResponse.Answer", p.instrPos(st), "the answer field receives a value that was not received from the matched proxy's answerChannel (an error text in a positional literal, a cached value): the client treats it as the proxy's answer although no proxy was handed its offer")
+			}
+		}
+		if bad == 0 {
+			c.ok(rule, "ClientPollResponse.Answer is empty or the value received from answerChannel", p.Pos(f.Pos()), fmt.Sprintf("%d store(s) in the broker", n))
+		}
+	}
+	ruleB := "O-6b bridge lookup succeeds only for listed fingerprints"
+	if w := p.Fn("broker", "(*BrokerContext).GetBridgeInfo"); w != nil {
+		var call *ssa.Call
+		for _, ci := range callsIn(w) {
+			if cc, ok := ci.(*ssa.Call); ok && strings.HasSuffix(calleeName(ci), ").GetBridgeInfo") {
+				call = cc
+			}
+		}
+		if call == nil {
+			c.undecided(ruleB, "BrokerContext.GetBridgeInfo consults the bridge list", p.Pos(w.Pos()), "no lookup call found")
+		} else {
+			okE := errNilEdges(w, call, 1)
+			good := true
+			var wp []*ssa.BasicBlock
+			for _, r := range returnsOf(w) {
+				if len(r.Results) != 2 {
+					continue
+				}
+				if isResultOfCall1(retVal(r, 1), call, 1) && isResultOfCall1(retVal(r, 0), call, 0) {
+					continue // hands on the lookup's verdict
+				}
+				if path := successReachableWithout(w, r, 1, okE); path != nil || (len(okE) == 0 && retMayBeNil(r, 1)) {
+					good, wp = false, path
+				}
+			}
+			c.check(good, ruleB, "BrokerContext.GetBridgeInfo succeeds only if the bridge list's lookup did", p.Pos(w.Pos()), "", "the wrapper can return a nil error although the lookup failed (a shadowed err, a bare return of named results): a client naming a bridge that is not in the list is matched to a proxy", p.pathString(wp)...)
+		}
+	}
 }
